@@ -275,6 +275,85 @@ example (st : ExecSt) : execOne Proofs.StdinExample.env0 { ty := .reject, lno :=
     Prog.ret ({ st with reject := true }, false) :=
   C04_reject_no_call _ _ _ rfl
 
+/-! ### "1 only for a matched reject" at the level of one action list (added by audit au1)
+
+`C04_reject_no_call` says what a reject entry does.  The converse - nothing ELSE sets the flag - was not a theorem: -/
+
+/-- Every leaf of `execOne`: the reject flag is set only if it was set before or the entry is a reject. -/
+theorem all_execOne_reject (env : PEnv) (mh : Match) (st : ExecSt) :
+    Proofs.World.All (fun r => r.1.reject = true → st.reject = true ∨ mh.ty = .reject) (execOne env mh st) := by
+  unfold execOne
+  cases hty : mh.ty <;> simp only [Proofs.World.bind_eq, Proofs.World.pure_eq] <;>
+    repeat' (first
+      | exact (fun h => Or.inl h)
+      | exact (fun _ => Or.inr trivial)
+      | (apply Proofs.World.All.bind_of_forall; intro _)
+      | split
+      | intro _)
+
+theorem all_mono_au1 {α} {R P : α → Prop} {p : Prog α} (hp : Proofs.World.All R p) (h : ∀ a, R a → P a) :
+    Proofs.World.All P p := by
+  induction p with
+  | ret a => exact h a hp
+  | call c k ih => intro r; exact ih r (hp r)
+
+/-- Every leaf of `matchesExec`: the flag is set only if it was set before or the list contains a reject entry. -/
+theorem all_matchesExec_reject (env : PEnv) (ml : MatchList) (st : ExecSt) :
+    Proofs.World.All (fun r => r.1.reject = true → st.reject = true ∨ ∃ m ∈ ml, m.ty = .reject) (matchesExec env ml st) := by
+  induction ml generalizing st with
+  | nil =>
+    unfold matchesExec
+    simp only [Proofs.World.bind_eq, Proofs.World.pure_eq]
+    split
+    · exact Proofs.World.All.bind_of_forall _ fun _ => (fun h => Or.inl h)
+    · exact fun h => Or.inl h
+  | cons mh rest ih =>
+    unfold matchesExec
+    simp only [Proofs.World.bind_eq, Proofs.World.pure_eq]
+    refine Proofs.World.All.bind (all_mono_au1 (all_execOne_reject env mh st) ?_)
+    rintro ⟨st', e⟩ h1
+    have key : st'.reject = true → st.reject = true ∨ ∃ m ∈ mh :: rest, m.ty = .reject := by
+      intro h
+      rcases h1 h with h | h
+      · exact .inl h
+      · exact .inr ⟨mh, List.mem_cons_self, h⟩
+    dsimp only
+    split
+    · split
+      · exact Proofs.World.All.bind_of_forall _ fun _ => key
+      · exact key
+    · refine all_mono_au1 (ih st') ?_
+      intro r hr h
+      rcases hr h with h | ⟨m, hm, hmt⟩
+      · exact key h
+      · exact .inr ⟨m, List.mem_cons_of_mem _ hm, hmt⟩
+
+/-- **The reject flag comes from a reject entry only.**  For every action list, start state whose flag is clear (as
+`processMessage` starts it: `reject := false`) and ARBITRARY call results: if `matches_exec` returns with the flag set, the
+list contains a reject entry.  With `C04_stdin_status` (status 1 iff no error and the flag) and the line
+`reject := st1.reject || xs.reject` of `processMessage` this is "1 only for a matched reject" for one message; the lift
+through `walk` / `mainP` (the flag of the loop state is the disjunction over the messages) is NOT proved here. -/
+theorem C04_reject_only_by_reject (env : PEnv) (ml : MatchList) (st : ExecSt) (orcl : Nat → Call → Res) (i : Nat)
+    (tr : List (Call × Res)) (hs : st.reject = false)
+    (h : (runOracle orcl (matchesExec env ml st) i tr).1.1.reject = true) : ∃ m ∈ ml, m.ty = .reject := by
+  have hall := Proofs.Own.all_runO (all_matchesExec_reject env ml st) orcl i
+  rw [Proofs.Own.runOracle_eq] at h
+  rcases hall h with h' | h'
+  · rw [hs] at h'; cases h'
+  · exact h'
+
+/-- Non-vacuity: the one-entry list `reject` from a state with the flag clear returns with the flag set (no call at all). -/
+example (st : ExecSt) (hs : st.reject = false) :
+    (runOracle (fun _ _ => .ok 0) (matchesExec Proofs.StdinExample.env0 [{ ty := .reject, lno := 1, part := 0 }] st) 0 []).1.1.reject = true ∧
+    st.reject = false := by
+  refine ⟨?_, hs⟩
+  unfold matchesExec
+  rw [show execOne Proofs.StdinExample.env0 { ty := .reject, lno := 1, part := 0 } st = Prog.ret ({ st with reject := true }, false)
+    from C04_reject_no_call _ _ _ rfl]
+  unfold matchesExec
+  cases hc : st.chsrc <;> simp [Proofs.World.bind_eq, Proofs.World.pure_eq, Prog.bind, runOracle, maildirClose] <;>
+    (cases st.src.dirH <;> simp [runOracle, Prog.bind])
+
 /-! ## An evaluation error reaches the root of the rule tree
 
 "Any ... matching ... error yields a non-zero status": `C04_message_error_iff` reduces the error bit of
